@@ -93,7 +93,7 @@ func (y *c13Sys) audit(inflight map[string]int) (string, string) {
 	return "", ""
 }
 
-var c13Events = []string{"req-ok", "req-404", "req-500", "req-refused", "req-abort", "eject-all", "clock+1.1s", "clock+11s"}
+var c13Events = []string{"req-ok", "req-404", "req-500", "req-refused", "req-abort", "eject-all", "clock+1.1s", "clock+11s", "req-client-gone"}
 
 type c13Params struct {
 	Strategy         string
@@ -120,6 +120,11 @@ func (in *c13Inst) Step(ev int) *vh.HViol {
 		in.s.AdvanceQuiet(1100 * time.Millisecond)
 	case "clock+11s":
 		in.s.AdvanceQuiet(11 * time.Second)
+	case "req-client-gone":
+		// the client has hung up before the balancer gets to see the request (context cancelled)
+		in.y.issued++
+		res := in.y.k.RequestCancelled("10.0.0.1")
+		in.out = fmt.Sprintf("%d/%v", res.Status, res.Aborted)
 	default:
 		mode := map[string]string{"req-ok": "ok", "req-404": "404", "req-500": "500", "req-refused": "refuse", "req-abort": "abort"}[e]
 		in.y.issued++
